@@ -106,11 +106,21 @@ def user_fn(h, focus_key):
     return fn
 
 
+def focus_key_for(focus, h):
+    """Every third override handler captures the focus under another name (`v as zz_v`): the
+    override function then finds the tentative value under that name."""
+    if h[0] == "override" and isinstance(h[2], int) and h[2] % 3 == 1:
+        return "zz_" + focus
+    return focus
+
+
 def selector_for(focus, h):
     ctx = h[3] if h[0] == "override" and h[1] == "ctx" else None
+    key = focus_key_for(focus, h)
+    tgt = focus if key == focus else f"{focus} as {key}"
     if ctx:
-        return f"f({ctx}) > {focus}"
-    return f"f > {focus}"
+        return f"f({ctx}) > {tgt}"
+    return f"f > {tgt}"
 
 
 def run_ptera(fn, src, recipe, script, focus, handlers, delivery):
@@ -132,7 +142,7 @@ def run_ptera(fn, src, recipe, script, focus, handlers, delivery):
                     else:
                         p = probing(sel, env={"f": f}, overridable=True)
                         kind = h[1]
-                        ufn = user_fn(h[1:], focus)
+                        ufn = user_fn(h[1:], focus_key_for(focus, h))
                         if kind == "cond":
                             # documented way to decline: filter the pipeline before override()
                             p.filter(lambda d, ufn=ufn: ufn(d) is not ptera.ABSENT).override(ufn)
@@ -161,7 +171,7 @@ def run_ptera(fn, src, recipe, script, focus, handlers, delivery):
                     elif h[1] == "const":
                         stack.enter_context(Overlay.tweaking({sel: h[2]}))
                     else:
-                        stack.enter_context(Overlay.rewriting({sel: user_fn(h[1:], focus)}, full=False))
+                        stack.enter_context(Overlay.rewriting({sel: user_fn(h[1:], focus_key_for(focus, h))}, full=False))
             out = PR.run_call(target, fn, recipe, glb, script)
     finally:
         if HY.global_state_problems():
